@@ -42,7 +42,7 @@ var specs = map[string]*propSpec{
 	},
 	"C13": {
 		ID: "C13", Engine: "storesim", Level: "fault_enumeration",
-		QuickRuns: 5000, ThoroughRuns: 150000, Chunk: 25, WatchdogS: 400,
+		QuickRuns: 3500, ThoroughRuns: 150000, Chunk: 25, WatchdogS: 400,
 		Rule: "one evaluation = one history (4-18 operations on a composition whose leaves are simulated stores, files over SimVFS, diskpacked over the os shim, with simulated key/value indexes); sub-runs = re-executions of the history from a fresh world with a single fault (every lower-layer call k of every operation j in a seeded window x every applicable kind: error, error-after-effect, short read, short write, iterator error), each followed by a healthy suffix, a closing sweep, new receives/removes, the store's own recovery procedure (diskpacked.Reindex, blobpacked fast recovery, encrypt meta re-scan over wiped indexes) and a second sweep; non-trivial = at least one single-fault sub-run; distinct = distinct (composition, op kinds, faulted call sites)",
 		Real: []string{"pkg/blobserver/{files,diskpacked,blobpacked,encrypt,replica,shard,cond,overlay,namespace,proxycache}", "pkg/blobserver (StatBlobsParallelHelper, MergedEnumerate, Receive)"},
 		Stub: []string{"SimStore", "SimKV", "SimVFS", "os shim + simdisk (scratch directory)"},
